@@ -16,7 +16,7 @@ TEXT = ("Decides that nearest_neighbor/symdel self-mode is an instance of the sy
 NOTE = "Trusted: rapidfuzz Levenshtein exactness; itertools.combinations enumerates all k-subsets in order; DESIGN Appendix A.1 (paper proof)."
 
 
-def run(r):
+def _rules(r, pre):
     rep = r.rep
     nn = get_nn(r)
     rep.explanation = "Generator, index builder, self-mode insertion sites (default mode, finite and infinite max_custom_distance) and the wrapper binding were analysed on the current tree."
@@ -29,14 +29,14 @@ def run(r):
     calls = [e for e in s.events_of("call") if resolve_callee(nn, q, e["term"])[0] == MOD + "symdel"]
     if len(calls) != 1:
         raise AnalysisBroken(f"{q}: expected one call to symdel, found {len(calls)}")
-    check_role_forwarding(r, "C01-BIND", q, calls[0]["term"], calls[0].node)
-    rep.ob("C01-BIND", q, strip_all(s.ret) == strip_all(calls[0]["term"]), "the wrapper returns symdel's result unmodified", wh(r, q, calls[0].node), expected="return symdel(...)", found=show(s.ret, 60), key="wrapper return")
-    rep.floor("C01-BIND", 9)
-    check_comb_gen(r, "C01-LNE")
-    rep.floor("C01-LNE", 5)
-    check_index_builder(r, "C01-IDX")
-    rep.floor("C01-IDX", 4)
-    check_engines_stateless(r, "C01-STATE", entries=("symdel", "nearest_neighbor", "SymdelDB.__init__"))
+    check_role_forwarding(r, pre + "C01-BIND", q, calls[0]["term"], calls[0].node)
+    rep.ob(pre + "C01-BIND", q, strip_all(s.ret) == strip_all(calls[0]["term"]), "the wrapper returns symdel's result unmodified", wh(r, q, calls[0].node), expected="return symdel(...)", found=show(s.ret, 60), key="wrapper return")
+    rep.floor(pre + "C01-BIND", 9)
+    check_comb_gen(r, pre + "C01-LNE")
+    rep.floor(pre + "C01-LNE", 5)
+    check_index_builder(r, pre + "C01-IDX")
+    rep.floor(pre + "C01-IDX", 4)
+    check_engines_stateless(r, pre + "C01-STATE", entries=("symdel", "nearest_neighbor", "SymdelDB.__init__"))
     # self-mode sites
     n = 0
     for mode in [m for m in MODES if m[0] == "none"]:
@@ -51,7 +51,7 @@ def run(r):
         U = nn.unwrap
         ok_pair = ok_pair or (len(sites) == 2 and U(sites[0][1].a) == U(sites[1][1].b) and U(sites[0][1].b) == U(sites[1][1].a) and strip(sites[0][1].d) == strip(sites[1][1].d)
                               and sites[0][1].guards == sites[1][1].guards)
-        rep.ob("C01-FGA", MOD + "symdel", ok_pair, "both orientations (i, j, d) and (j, i, d) are inserted under the same guards with the same distance", w,
+        rep.ob(pre + "C01-FGA", MOD + "symdel", ok_pair, "both orientations (i, j, d) and (j, i, d) are inserted under the same guards with the same distance", w,
                expected="ans.add((i, j, dist)); ans.add((j, i, dist))", found=f"{len(sites)} insertion site(s)", key=f"orientations {mode[1]}")
         if sites:
             coll = strip(sites[0][1].coll)
@@ -59,7 +59,7 @@ def run(r):
                 sm = nn.summary(MOD + "symdel")
                 coll = strip(sm.loops[coll[1]].init.get(coll[2])) if head(coll) in ("phi", "after") else strip(coll[2])
             is_set = (head(coll) == "call" and strip(coll[1]) == ("glob", "builtins.set")) or head(coll) == "set"
-            rep.ob("C01-IST", MOD + "symdel", is_set and sites[0][1].kind == "add", "pairs sharing several variants are reported once (result collected in a set)", w, expected="ans = set(); ans.add(...)",
+            rep.ob(pre + "C01-IST", MOD + "symdel", is_set and sites[0][1].kind == "add", "pairs sharing several variants are reported once (result collected in a set)", w, expected="ans = set(); ans.add(...)",
                    found=show(coll, 40), key=f"dedup {mode[1]}")
             # distinct positions: pairs drawn by combinations over a duplicate-free position list
             from ._nn import pair_source_verdict
@@ -67,15 +67,24 @@ def run(r):
             if verdict is None:
                 rep.require(False, f"{MOD}symdel: pairs are drawn from {found}, which is not built from combinations(values, 2); cannot decide [C01-FGA]")
             else:
-                rep.ob("C01-FGA", MOD + "symdel", bool(verdict), "every unordered pair of distinct positions sharing a variant is examined once (i != j by construction)", w,
+                rep.ob(pre + "C01-FGA", MOD + "symdel", bool(verdict), "every unordered pair of distinct positions sharing a variant is examined once (i != j by construction)", w,
                        expected="for i, j in combinations(values, 2)", found=found, key=f"pairs {mode[1]}")
         # typed acceptance analysis last: structural findings above take precedence over an untypable candidate generator
         for label, st, sa, sb, policy, eq in sites:
             rep.analysed(st.q)
             # self mode: pairs are drawn as combinations of distinct positions; an explicit i != j filter on top of that is redundant, not wrong
-            check_site_ext(r, "C01", nn, st, mode, sa, sb, policy, eq, f"site{st.line}")
+            check_site_ext(r, pre + "C01", nn, st, mode, sa, sb, policy, eq, f"site{st.line}")
             n += 1
     rep.require(n >= 4, f"C01: {n} self-mode site x mode instances, floor is 4")
+
+
+def run(r):
+    _rules(r, "")
+
+
+def value_rules(r, pre=""):
+    """Default-mode neighbour search is exact (run for properties that stand on it: the TCRdist search of C14)."""
+    _rules(r, pre)
 
 
 from ..selftest import V  # noqa: E402
